@@ -176,29 +176,29 @@ Qed.
 
 (* follow on the head object of an intact chain: it ends at the last ID, at
    an object that is not a reference and is what L maps that ID to *)
-Lemma follow_chain rest : forall fuel s o ob,
+Lemma follow_chain rest : forall fuel s o ob lk,
   length rest <= fuel ->
   plan s = [] -> cache_ok s -> NoDup (map fst (cache s)) ->
   (forall k, In k rest -> k <> KGen (supply s)) ->
   hget s o = Some ob -> chain_rec s (o_rec ob) rest ->
   exists s' o' ob',
-    follow fuel s o = (s', Ok o') /\ quiet s s' /\
+    follow fuel s o lk = (s', Ok (o', last rest lk)) /\ quiet s s' /\
     hget s' o' = Some ob' /\ r_ref (o_rec ob') = None /\ o_id ob' = last rest (o_id ob) /\
     (rest = [] -> o' = o /\ s' = s) /\
     (rest <> [] -> L s' (o_id ob') = Some (o_rec ob') /\
                    exists rn, L s (o_id ob') = Some rn /\
                               (o_rec ob' = rn \/ o_rec ob' = codec (conf s) rn)).
 Proof.
-  induction rest as [|k' t IH]; intros fuel s o ob Hfuel Hp Hco Hnd Hnj Hg Hch.
+  induction rest as [|k' t IH]; intros fuel s o ob lk Hfuel Hp Hco Hnd Hnj Hg Hch.
   - cbn in Hch. exists s, o, ob.
-    assert (E : follow fuel s o = (s, Ok o)) by (destruct fuel; cbn; rewrite Hg, Hch; reflexivity).
+    assert (E : follow fuel s o lk = (s, Ok (o, lk))) by (destruct fuel; cbn; rewrite Hg, Hch; reflexivity).
     split; [exact E|]. split; [apply quiet_refl; assumption|].
     repeat split; auto; congruence.
   - destruct Hch as [Hr [r' [Hl Hc]]]. destruct fuel as [|f]; [cbn in Hfuel; lia|].
     cbn [follow]. rewrite Hg, Hr.
     destruct (lookup_found s k' r' Hp Hco Hnd (Hnj k' (or_introl eq_refl)) Hl) as [s1 [o1 [Eg P]]].
     rewrite Eg. destruct P as [Q Pobj Pca PLk].
-    destruct (IH f s1 o1 (mkObj k' r')) as [s' [o' [ob' (E & Q' & Hg' & Hr' & Hid' & Hnil & Hcons)]]].
+    destruct (IH f s1 o1 (mkObj k' r') k') as [s' [o' [ob' (E & Q' & Hg' & Hr' & Hid' & Hnil & Hcons)]]].
     + cbn in Hfuel. lia.
     + exact (qu_plan _ _ Q).
     + exact (qu_cok _ _ Q).
@@ -206,7 +206,7 @@ Proof.
     + intros k Hin. rewrite (qu_supply _ _ Q). apply Hnj. right. exact Hin.
     + exact Pobj.
     + cbn [o_rec]. eapply chain_rec_pres; [exact (qu_L _ _ Q) | exact Hc].
-    + exists s', o', ob'. split; [exact E|]. split; [eapply quiet_trans; eassumption|].
+    + exists s', o', ob'. split; [rewrite last_cons; exact E|]. split; [eapply quiet_trans; eassumption|].
       split; [exact Hg'|]. split; [exact Hr'|].
       split; [rewrite last_cons; exact Hid'|]. split; [discriminate|]. intros _.
       destruct t as [|k2 t'].
@@ -262,14 +262,14 @@ Proof.
 Qed.
 
 (* ERefLoop is unreachable: S supply hops are never used up *)
-Lemma follow_no_loop fuel : forall s o ob,
+Lemma follow_no_loop fuel : forall s o ob lk,
   plan s = [] -> cache_ok s -> NoDup (map fst (cache s)) -> ref_wf s ->
   hget s o = Some ob ->
   (forall t, r_ref (o_rec ob) = Some t ->
      exists m, t = KGen m /\ (m < supply s)%N /\ N.to_nat (supply s) - N.to_nat m <= fuel) ->
-  snd (follow fuel s o) <> Err ERefLoop.
+  snd (follow fuel s o lk) <> Err ERefLoop.
 Proof.
-  induction fuel as [|f IH]; intros s o ob Hp Hco Hnd Hw Hg Ht; cbn [follow]; rewrite Hg.
+  induction fuel as [|f IH]; intros s o ob lk Hp Hco Hnd Hw Hg Ht; cbn [follow]; rewrite Hg.
   - destruct (r_ref (o_rec ob)) as [t|] eqn:Er; [|discriminate].
     destruct (Ht t eq_refl) as [m [_ [Hm Hf]]]. lia.
   - destruct (r_ref (o_rec ob)) as [t|] eqn:Er; [|discriminate].
@@ -277,7 +277,7 @@ Proof.
     destruct (L s (KGen m)) as [r'|] eqn:El.
     + assert (Hnj : KGen m <> KGen (supply s)) by (intro E; injection E as E; lia).
       destruct (lookup_found s (KGen m) r' Hp Hco Hnd Hnj El) as [s1 [o1 [Eg [Q Pobj _ _]]]].
-      rewrite Eg. apply (IH s1 o1 (mkObj (KGen m) r')).
+      rewrite Eg. apply (IH s1 o1 (mkObj (KGen m) r') (KGen m)).
       * exact (qu_plan _ _ Q).
       * exact (qu_cok _ _ Q).
       * exact (qu_ndc _ _ Q).
@@ -292,12 +292,12 @@ Proof.
       * rewrite (cache_get_absent s (KGen m) Hp Ec El). cbn. discriminate.
 Qed.
 
-Corollary follow_fuel_suffices s o ob :
+Corollary follow_fuel_suffices s o ob lk :
   plan s = [] -> cache_ok s -> nodup_ok s -> ref_wf s -> hget s o = Some ob ->
   L s (o_id ob) = Some (o_rec ob) ->
-  snd (follow (S (N.to_nat (supply s))) s o) <> Err ERefLoop.
+  snd (follow (S (N.to_nat (supply s))) s o lk) <> Err ERefLoop.
 Proof.
-  intros Hp Hco [Hnd _] Hw Hg Hl. apply (follow_no_loop _ s o ob Hp Hco Hnd Hw Hg).
+  intros Hp Hco [Hnd _] Hw Hg Hl. apply (follow_no_loop _ s o ob lk Hp Hco Hnd Hw Hg).
   intros t Hr. destruct (Hw _ _ t Hl Hr) as [m [-> [Hm _]]].
   exists m. split; [reflexivity|]. split; [exact Hm | lia].
 Qed.
@@ -330,7 +330,7 @@ Proof.
   assert (Hlen : length rest <= N.to_nat (supply s)).
   { destruct rest as [|k1' t']; [congruence|].
     destruct (chain_len s Hw t' k r k1' HL Hch) as [m1 [_ Hl1]]. lia. }
-  destruct (follow_chain rest (S (N.to_nat (supply s1))) s1 o0 (mkObj k r))
+  destruct (follow_chain rest (S (N.to_nat (supply s1))) s1 o0 (mkObj k r) k)
     as [s2 [o' [ob' (Ef & Q2 & Hg2 & Hr2 & Hid2 & _ & Hcons)]]].
   - rewrite (qu_supply _ _ Q). lia.
   - exact (qu_plan _ _ Q).
@@ -340,7 +340,7 @@ Proof.
     apply drawn_not_next. eapply L_drawn; eassumption.
   - exact Pobj.
   - cbn [o_rec]. eapply chain_rec_pres; [exact (qu_L _ _ Q) | exact Hch].
-  - rewrite Ef. rewrite Hg2. cbn [o_id] in Hid2. fold kn in Hid2. rewrite Hid2. cbn [app].
+  - rewrite Ef. fold kn. cbn [o_id] in Hid2. fold kn in Hid2. cbn [app].
     destruct (Hcons Hne) as [HL2 [rn1 [Hrn1 Hcase1]]]. rewrite Hid2 in HL2, Hrn1.
     (* back from s1 to s *)
     assert (Hrn : exists rn, L s kn = Some rn /\ (o_rec ob' = rn \/ o_rec ob' = codec (conf s) rn)).
